@@ -17,6 +17,12 @@ def dy(rng, hi, e=None, lo=0):
     return Fraction(k, 1 << e)
 
 
+def small_rel(x):
+    """a step of about 2^-17 of x (below a relative tolerance of 1e-5, above the two-decimal record resolution for
+    large x), on the 2^-10 grid"""
+    return max(Fraction(1, 1024), Fraction(int(Fraction(x) * 1024 / (1 << 17)), 1024))
+
+
 def tiny(x):
     """a very small step that is still exactly representable on top of x in binary64"""
     bl = max(1, int(abs(Fraction(x))).bit_length())
@@ -103,8 +109,10 @@ def gen_labware(rng, n=None, big=False):
         kind = rng.choice(["plate", "plate", "trough"])
         if i == 0 and n > 1:
             kind = "trough" if rng.random() < 0.5 else "plate"
-        mx = Fraction(rng.choice([100, 250, 300, 1000, 2500, 10000, "12.5", "950.5"]))
+        mx = Fraction(rng.choice([100, 250, 300, 1000, 2500, 10000, 100000, "12.5", "950.5"]))
         mn = Fraction(rng.choice([0, 0, 0, 5, 10, "2.5"]))
+        if mx >= 10000 and rng.random() < 0.4:
+            mn = mx / 10
         if mn >= mx:
             mn = Fraction(0)
         if kind == "plate":
@@ -226,7 +234,7 @@ def gen_remove_like(rng, sh, k, valid=True):
         else:
             x = dy(rng, avail)
         if not valid and rng.random() < 0.5:
-            x = avail + rng.choice([tiny(sh.mx(k)), Fraction(1), Fraction(1000)])
+            x = avail + rng.choice([tiny(sh.mx(k)), small_rel(sh.mn(k)), Fraction(1), Fraction(1000)])
             if x < 0:
                 x = Fraction(1)
         tmp[i] = cur - x
@@ -249,7 +257,7 @@ def gen_add_like(rng, sh, k, valid=True):
         else:
             x = dy(rng, room)
         if not valid and rng.random() < 0.5:
-            x = max(Fraction(0), room) + rng.choice([tiny(sh.mx(k)), Fraction(1), Fraction(1000)])
+            x = max(Fraction(0), room) + rng.choice([tiny(sh.mx(k)), small_rel(sh.mx(k)), Fraction(1), Fraction(1000)])
         tmp[i] = cur + x
         vols.append(x)
     return wells, vols
@@ -329,7 +337,7 @@ def op_transfer(rng, sh, ks, kd, valid=True, wl=None):
         else:
             x = dy(rng, avail)
         if not valid and rng.random() < 0.4:
-            x = max(Fraction(0), avail) + rng.choice([tiny(max(sh.mx(ks), sh.mx(kd))), Fraction(1), Fraction(500)])
+            x = max(Fraction(0), avail) + rng.choice([tiny(max(sh.mx(ks), sh.mx(kd))), small_rel(sh.mx(kd)), small_rel(sh.mn(ks)), Fraction(1), Fraction(500)])
         stmp[si] = scur - x
         if ks == kd:
             stmp[di] = stmp.get(di, sh.v[kd][di]) + x
